@@ -28,7 +28,7 @@ META = {
 REQUIRED = ["rv_unpack_pack", "rv_isa_wf", "rv_table_prefix_free", "rv_table_matches_isa_partial", "rv_decode_encode",
             "rv_ranges_match_isa_partial", "rv_table_rows_roundtrip",
             "la_unpack_pack", "la_isa_wf", "la_layouts_ok", "la_table_prefix_free", "la_table_matches_isa_partial",
-            "la_decode_encode", "la_table_rows_roundtrip"]
+            "la_decode_encode", "la_table_rows_roundtrip", "x64_rm_decode_encode"]
 
 GEN_RV = os.path.join(LEAN, "WaVerif", "Gen", "C17Riscv.lean")
 GEN_LA = os.path.join(LEAN, "WaVerif", "Gen", "C17Loong64.lean")
